@@ -77,6 +77,7 @@ def run(ctx):
 
     from .. import fetchlatch
     fetchlatch.obligations(ctx)
+    fetchlatch.stop_edge_advances(ctx)      # STOP is a defined opcode: it completes (after continue) like any other
 
     # ---- reset state ---------------------------------------------------
     from .. import absint, step
